@@ -194,8 +194,15 @@ class Ctx:
             choice = self.forced[pos]
         else:
             feas = [v for v in values if self.feasible(e == v)]
-            if not complete and self.feasible(other):
-                feas.append("other")
+            if not complete:
+                # "none of the values": usually infeasible (the caller established the range).  An `unknown` here would
+                # send a path on with a symbolic count and end in an undecided verdict, so a time-out (machine under
+                # load) gets a second, longer try before the branch is kept
+                r, _ = self.check(other, timeout=self.feas_timeout_ms, wall_factor=FEAS_WALL_FACTOR)
+                if r == z3.unknown:
+                    r, _ = self.check(other, timeout=8 * self.feas_timeout_ms, wall_factor=4 * FEAS_WALL_FACTOR)
+                if r != z3.unsat:
+                    feas.append("other")
             if not feas:
                 feas = ["other"]
             choice = feas[0]
